@@ -1,0 +1,35 @@
+// Copyright 2021 TiKV Project Authors.
+//
+// Licensed under the Apache License, Version 2.0 (the "License");
+// you may not use this file except in compliance with the License.
+// You may obtain a copy of the License at
+//
+//     http://www.apache.org/licenses/LICENSE-2.0
+//
+// Unless required by applicable law or agreed to in writing, software
+// distributed under the License is distributed on an "AS IS" BASIS,
+// See the License for the specific language governing permissions and
+// limitations under the License.
+
+//go:build verif
+// +build verif
+
+package core
+
+import "sort"
+
+// VerifPendingRegions returns the ids of the regions that wait in the batch
+// of the region storage (nil without a region storage).
+func VerifPendingRegions(s *Storage) []uint64 {
+	if s.regionStorage == nil {
+		return nil
+	}
+	s.regionStorage.mu.RLock()
+	defer s.regionStorage.mu.RUnlock()
+	ids := make([]uint64, 0, len(s.regionStorage.batchRegions))
+	for _, r := range s.regionStorage.batchRegions {
+		ids = append(ids, r.GetId())
+	}
+	sort.Slice(ids, func(i, j int) bool { return ids[i] < ids[j] })
+	return ids
+}
